@@ -746,6 +746,8 @@ class ResNetwork(GeoNetwork):
         >>> print("%.3f" % res.vertex_current_flow_betweenness(2))
         0.044
         """
+        if not 0 <= i < self.N:
+            raise IndexError("node index out of range")
         # set params
         Is = It = FIELD(1.0)
         return _vertex_current_flow_betweenness(
